@@ -29,6 +29,9 @@ impl Value for V8 {
 
 impl<K: Key + Copy, V: Value + Clone> TxIndex<K, V> {
     /// What `TxIndex::new` builds before its bootstrap loop (the loop itself needs `ValidatedBlock`s, i.e. PoW).
+    pub(crate) fn verif_set_tip(&mut self, tip: u32) {
+        self.tip = tip;
+    }
     pub(crate) fn verif_empty(size: usize, tip: u32) -> Self {
         TxIndex {
             index: HashMap::new(),
